@@ -45,7 +45,9 @@ func (f *stringModify) Call(s *slip.Scope, args slip.List, depth int) (result sl
 	} else {
 		slip.TypePanic(s, depth, "string", args[0], "string")
 	}
-	end := len(str)
+	// The bounds count characters, not bytes.
+	ra := []rune(str)
+	end := len(ra)
 	for pos := 1; pos < len(args); pos += 2 {
 		sym, ok := args[pos].(slip.Symbol)
 		if !ok {
@@ -72,11 +74,10 @@ func (f *stringModify) Call(s *slip.Scope, args slip.List, depth int) (result sl
 			slip.TypePanic(s, depth, "keyword", sym, ":start", ":end")
 		}
 	}
-	if end < start || len(str) < end || start < 0 {
-		slip.ErrorPanic(s, depth, "start and end of %d, %d are not valid for a string of length %d", start, end, len(str))
+	if end < start || len(ra) < end || start < 0 {
+		slip.ErrorPanic(s, depth, "start and end of %d, %d are not valid for a string of length %d", start, end, len(ra))
 	}
-	if 0 < start || end < len(str) {
-		ra := []rune(str)
+	if 0 < start || end < len(ra) {
 		buf := make([]rune, 0, len(ra))
 		buf = append(buf, ra[:start]...)
 		buf = append(buf, []rune(f.modify(string(ra[start:end])))...)
